@@ -58,7 +58,26 @@ pub fn worker() -> i32 {
         };
         let layout = v["layout"].as_str().unwrap_or("").to_string();
         let (c0, _) = rusage_self();
-        let verdict = match proof_from_value(&v["proof"]) {
+        let typed = if layout == "parse:" { None } else { proof_from_value(&v["proof"]) };
+        let verdict = match typed {
+            // subject "pubin": public-input validation and the program/output hashes called directly (in a
+            // full verification they are only reached by a proof that is otherwise valid)
+            _ if layout == "parse:" => {
+                // subject "parse": the proof FILE (a JSON document) through the parser and the CLI's conversion
+                let text = serde_json::to_string(&v["proof"]).unwrap_or_default();
+                match crate::props::c19::parse_and_transform(&text) {
+                    crate::props::c19::Parsed::Ok(_) => "ok".to_string(),
+                    crate::props::c19::Parsed::Err(_) => "err".to_string(),
+                    crate::props::c19::Parsed::Panic(p) => format!("panic:{}", p.site()),
+                }
+            }
+            Some(p) if layout.starts_with("pubin:") => {
+                let l = &layout[6..];
+                let lt = crate::kit::f2b(&p.config.log_trace_domain_size).to_u64_digits().first().cloned().unwrap_or(0).min(80);
+                let a = crate::props::c14::run_validate(l, &p.public_input, lt);
+                let b = crate::props::c14::run_hashes(l, &p.public_input).0;
+                format!("{}+{}", a.short(), b.short())
+            }
             Some(p) => verify(&p, &layout).class(),
             None => "untypable".to_string(),
         };
@@ -378,7 +397,10 @@ pub fn run(ctx: &Ctx) -> Report {
          re-declarations (trace exponent +1/+8/+40 with heights, FRI sizes and step count following; blow-up exponent 1/16 with \
          heights; query count 48/49/2^16/2^40; friendly-layer count everywhere; segments near 2^64); each case verified in a worker \
          process (address space capped) with CPU time and peak RSS measured by getrusage. Oracle: CPU <= 5 s, RSS <= 1 GiB \
-         (honest: ~0.1 s, ~20 MB), the worker neither dies nor has to be killed. Non-trivial: every case other than the honest \
+         (honest: ~0.1 s, ~20 MB), the worker neither dies nor has to be killed. Two further subjects run in the same workers: validate_public_input + \
+         verify_public_input called directly on every native proof's public input (every numeric field at the extremes and at \
+         2^27+3, 2^30+3), and the proof FILE through the parser and the CLI conversion (every number of the JSON document at \
+         {0, 1, 2^16, 2^22, 2^27, 2^32-1, 2^32, 2^40, 2^63, 2^64-1}). Non-trivial: every case other than the honest \
          one; distinct by (proof, field, value)",
     );
     rep.trust("getrusage / /proc CPU accounting; thresholds 50x above the honest cost so only work proportional to a field's VALUE trips them");
@@ -390,6 +412,77 @@ pub fn run(ctx: &Ctx) -> Report {
     let mut cases: Vec<Case> = Vec::new();
     for (i, b) in bs.iter().enumerate() {
         cases.extend(cases_for(i, b));
+    }
+    // second subject: validate_public_input + verify_public_input called directly on every native proof's
+    // public input with every numeric field at the extremes
+    let n_verify_bases = bs.len();
+    let all_bases = bases(ctx, true);
+    for b in all_bases {
+        let bi = bs.len();
+        for p in numeric_paths(&b.value) {
+            let ps = jw::path_str(&p);
+            if !ps.starts_with("public_input") {
+                continue;
+            }
+            let menu: Vec<Value> = match jw::get(&b.value, &p).unwrap() {
+                Value::String(_) => extreme_felts().iter().map(|m| Value::String(fhex(m))).chain([Value::String("0x8000003".into()), Value::String("0x40000003".into())]).collect(),
+                Value::Number(_) => [0u64, 1, 1 << 16, 1 << 27, 1 << 32, 1 << 40, u64::MAX].iter().map(|m| json!(m)).collect(),
+                _ => vec![],
+            };
+            for m in menu {
+                let mut v = b.value.clone();
+                jw::set(&mut v, &p, m.clone());
+                if v != b.value {
+                    cases.push(Case { base: bi, desc: format!("pubin: {} = {}", ps, m), class: format!("pubin:{}", jw::path_class(&p)), value: v });
+                }
+            }
+        }
+        bs.push(Base { name: b.name.clone(), layout: format!("pubin:{}", b.layout), value: b.value });
+    }
+    let _ = n_verify_bases;
+    // third subject: the proof file itself through the parser + conversion, every number of the document
+    // (proof parameters, public input, segments, public-memory addresses / pages, dynamic parameters) at extremes
+    {
+        let files = crate::refm::stonefile::native_proofs(ctx);
+        let take = if quick { 2 } else { files.len() };
+        // quick: the first file and, if present, the dynamic one
+        let mut picked: Vec<&crate::refm::stonefile::ProofFile> = Vec::new();
+        for f in files.iter() {
+            if picked.len() < take.min(1) || f.loaded.meta.layout == "dynamic" || !quick {
+                picked.push(f);
+            }
+        }
+        for pf in picked {
+            let doc: Value = match serde_json::from_str(&pf.text) {
+                Ok(d) => d,
+                Err(_) => continue,
+            };
+            let bi = bs.len();
+            cases.push(Case { base: bi, desc: "parse: unmodified file".into(), class: "parse:honest".into(), value: doc.clone() });
+            let n_cells = doc["public_input"]["public_memory"].as_array().map(|a| a.len()).unwrap_or(0);
+            for l in jw::leaves(&doc) {
+                let ps = jw::path_str(&l);
+                if !(ps.starts_with("public_input") || ps.starts_with("proof_parameters")) || !jw::get(&doc, &l).map(|x| x.is_number()).unwrap_or(false) {
+                    continue;
+                }
+                if ps.contains("public_memory[") {
+                    let keep = [0usize, 1, n_cells / 2, n_cells.saturating_sub(1)].iter().any(|i| ps.contains(&format!("public_memory[{}].", i)));
+                    if !keep {
+                        continue;
+                    }
+                }
+                let dynp = ps.contains("dynamic_params");
+                let menu: Vec<u64> = if dynp { vec![1 << 27, u32::MAX as u64, 1 << 40, u64::MAX] } else { vec![0, 1, 1 << 16, 1 << 22, 1 << 27, u32::MAX as u64, 1 << 32, 1 << 40, 1 << 63, u64::MAX] };
+                for m in menu {
+                    let mut v = doc.clone();
+                    jw::set(&mut v, &l, json!(m));
+                    if v != doc {
+                        cases.push(Case { base: bi, desc: format!("parse: {} = {}", ps, m), class: format!("parse:{}", jw::path_class(&l)), value: v });
+                    }
+                }
+            }
+            bs.push(Base { name: pf.name.clone(), layout: "parse:".into(), value: Value::Null });
+        }
     }
     let inputs: Vec<(String, Value)> = cases.iter().map(|c| (bs[c.base].layout.clone(), c.value.clone())).collect();
     let outcomes = run_pool(&inputs, 16);
@@ -406,6 +499,9 @@ pub fn run(ctx: &Ctx) -> Report {
             Outcome::Done { verdict, cpu_ms, maxrss_kb } => {
                 max_cpu = max_cpu.max(*cpu_ms);
                 max_rss = max_rss.max(*maxrss_kb);
+                if c.class == "parse:honest" && verdict != "ok" {
+                    rep.machinery(&format!("C17: unmodified file {} not parsed in the worker: {}", b.name, verdict));
+                }
                 if c.class == "honest" {
                     honest_cpu = honest_cpu.max(*cpu_ms);
                     if verdict != "ok" {
